@@ -287,7 +287,9 @@ def encode(rec):
         if snap is None:
             raise ValueError("the survival operator was not called through .do()")
         r2 = Record("surv", {"cls": "constr" if c["surv_cls"] == "constr" and c["algo"] in ("nsde", "gde3", "ga", "ea-dex") else "rnc",
-                             "n_survive": h.get("n_survive"), "constr": c["constr"]},
+                             "n_survive": h.get("n_survive"), "constr": c["constr"],
+                             "metric": {"gde3mnn": "mnn", "gde32nn": "2nn", "gde3p": "pcd"}.get(c["algo"], "cd" if (c["surv_cls"] == "default" and c["algo"] in ("nsde", "gde3")) else c["metric"]),
+                             "compiled": True},
                     {"F": snap["F"], "G": snap["G"], "H": np.zeros((len(snap["F"]), 0)), "CV": snap["CV"], "feas": snap["feas"]})
         r2.out["oracles"] = rec.out["oracles"]
         t += ["SURV"] + comp_surv.encode(r2).split()[1:]
